@@ -443,41 +443,70 @@ func parserTables(c *Ctx, fn *ssa.Function) (map[string]roleTable, []string) {
 					if role == "" {
 						continue
 					}
-					// find the args index inside the stored value
+					// find the args index inside the stored value (looking through conversions, φ's and extracted helpers)
 					var idx ssa.Value
 					var low ssa.Value
-					var walk func(v ssa.Value, d int)
-					walk = func(v ssa.Value, d int) {
-						if d > 6 || idx != nil || low != nil {
+					var ve *Env
+					var walk func(we *Env, v ssa.Value, d int)
+					walk = func(we *Env, v ssa.Value, d int) {
+						if d > 8 || idx != nil || low != nil {
 							return
+						}
+						intoCallee := func(call *ssa.Call, i int) bool {
+							sc := call.Call.StaticCallee()
+							if sc == nil || len(sc.Blocks) == 0 || PkgOf(sc) != "parsers" || we.depth >= 4 {
+								return false
+							}
+							sub := we.Sub(call, sc)
+							for _, r := range returnsOf(sc) {
+								if i < len(r.Results) {
+									walk(sub, retval(r, i), d+1)
+								}
+							}
+							return true
 						}
 						switch y := v.(type) {
 						case *ssa.UnOp:
-							if _, ok := argIndexLE(e, y); ok {
-								idx = y
+							if _, ok := argIndexLE(we, y); ok {
+								idx, ve = y, we
 								return
 							}
 						case *ssa.Convert:
-							walk(y.X, d+1)
+							walk(we, y.X, d+1)
+						case *ssa.Phi:
+							for _, ed := range y.Edges {
+								walk(we, ed, d+1)
+							}
+						case *ssa.Parameter:
+							if a, pe := we.actual(y); a != nil {
+								walk(pe, a, d+1)
+							}
+						case *ssa.Extract:
+							if call, ok := y.Tuple.(*ssa.Call); ok {
+								intoCallee(call, y.Index)
+							}
 						case *ssa.Call:
 							if bi, ok := y.Call.Value.(*ssa.Builtin); ok && bi.Name() == "append" {
 								if sl, ok := y.Call.Args[1].(*ssa.Slice); ok && sl.Low != nil {
-									low = sl.Low
+									low, ve = sl.Low, we
 								}
 								return
 							}
+							if intoCallee(y, 0) {
+								return
+							}
 							for _, a := range y.Call.Args {
-								walk(a, d+1)
+								walk(we, a, d+1)
 							}
 						}
 					}
-					walk(x.Val, 0)
+					walk(e, x.Val, 0)
 					var l LE
 					switch {
 					case idx != nil:
-						l, _ = argIndexLE(e, idx)
+						l, _ = argIndexLE(ve, idx)
 					case low != nil:
-						l = e.LE(low)
+						l = ve.LE(low)
 					default:
 						continue
 					}
